@@ -11,7 +11,10 @@ use std::fmt::Display;
 use std::str::FromStr;
 
 use std::sync::Arc;
+#[cfg(not(feature = "verif"))]
 use std::sync::atomic::{AtomicU64, AtomicUsize, Ordering};
+#[cfg(feature = "verif")]
+use crate::verif::atomic::{AtomicU64, AtomicUsize, Ordering};
 
 /// A lock-free implementation of a price level in a limit order book
 #[derive(Debug)]
